@@ -24,7 +24,6 @@ package client
 
 import (
 	"sync"
-	"sync/atomic"
 )
 
 // RoundRobin implements the round-robin algorithm
@@ -56,6 +55,10 @@ func (x *RoundRobin) Set(nodes ...*Node) {
 func (x *RoundRobin) Next() *Node {
 	x.locker.Lock()
 	defer x.locker.Unlock()
-	n := atomic.AddUint32(&x.next, 1)
-	return x.nodes[(int(n)-1)%len(x.nodes)]
+	// next is kept reduced modulo the pool size. An ever-growing uint32 counter
+	// wraps to zero after 2^32 calls, which used to compute index -1 (a panic)
+	// and broke the cyclic order whenever the pool size does not divide 2^32.
+	idx := int(x.next) % len(x.nodes)
+	x.next = uint32(idx + 1)
+	return x.nodes[idx]
 }
